@@ -41,6 +41,7 @@ let aot_arg (items : Sx.t list) : AotTree.arg =
   let short = ref None and long = ref None and sa = ref [] and la = ref [] in
   let act = ref AotTree.ASet and num = ref None and pvs = ref [] and has_pvs = ref false in
   let glob = ref false and hide = ref false and req = ref false in
+  let x_vn = ref [] and x_term = ref None and x_last = ref false and x_cx = ref [] and x_grp = ref [] in
   Stdlib.List.iter (fun it ->
     let l = Sx.args it in
     match Sx.head it with
@@ -63,13 +64,18 @@ let aot_arg (items : Sx.t list) : AotTree.arg =
     | "global" -> glob := true
     | "hide" -> hide := true
     | "required" -> req := true
-    | "cx" -> ()  (* conflicts_with: read by the zsh generator only *)
+    | "vn" -> x_vn := !x_vn @ Stdlib.List.map str_of l        (* value_names *)
+    | "term" -> x_term := Some (str_of (hd l))                 (* value_terminator *)
+    | "last" -> x_last := true
+    | "cx" -> x_cx := !x_cx @ Stdlib.List.map str_of l        (* conflicts_with_all: ids in the order given *)
+    | "grp" -> x_grp := !x_grp @ Stdlib.List.map str_of l     (* groups(..) *)
     | _ -> raise Bad_spec) (Stdlib.List.tl items);
   { AotTree.a_id = id; a_short = !short; a_long = !long;
     a_short_aliases = Stdlib.List.rev !sa; a_aliases = Stdlib.List.rev !la;
     a_action = !act; a_num = !num;
     a_pvs = (if !has_pvs then Some (Stdlib.List.rev !pvs) else None);
-    a_hint = None; a_global = !glob; a_hide = !hide; a_required = !req }
+    a_hint = None; a_global = !glob; a_hide = !hide; a_required = !req;
+    a_value_names = !x_vn; a_terminator = !x_term; a_last = !x_last; a_blacklist = !x_cx; a_groups = !x_grp }
 
 let rec aot_cmd (items : Sx.t list) : AotTree.cmd =
   let name = str_of (hd items) in
@@ -109,6 +115,7 @@ let txt_arg (mode : tmode) (spec : Sx.t) : AotTree.arg * TextTree.atext =
   let short = ref None and long = ref None and sa = ref [] and la = ref [] in
   let takes = ref false and multi = ref false and count = ref false in
   let glob = ref false and hide = ref false and req = ref false in
+  let x_vn = ref [] and x_term = ref None and x_last = ref false and x_cx = ref [] and x_grp = ref [] in
   let pvs = ref [] and help = ref None and lng = ref false in
   Stdlib.List.iter (fun it ->
     let v = Sx.args it in
@@ -124,7 +131,7 @@ let txt_arg (mode : tmode) (spec : Sx.t) : AotTree.arg * TextTree.atext =
     | "count" -> count := true
     | "global" -> glob := true
     | "req" -> req := true
-    | "last" -> ()
+    | "last" -> x_last := true
     | "hide" -> hide := true
     | "hint" -> ()
     | "pv" | "pvhide" ->
@@ -139,7 +146,8 @@ let txt_arg (mode : tmode) (spec : Sx.t) : AotTree.arg * TextTree.atext =
      a_short_aliases = Stdlib.List.rev !sa; a_aliases = Stdlib.List.rev !la;
      a_action = action; a_num = (if !multi then Some (n_of_int 1, n_of_z usize_max) else None);
      a_pvs = (if !pvs <> [] then Some (Stdlib.List.rev !pvs) else None);
-     a_hint = None; a_global = !glob; a_hide = !hide; a_required = !req },
+     a_hint = None; a_global = !glob; a_hide = !hide; a_required = !req;
+    a_value_names = !x_vn; a_terminator = !x_term; a_last = !x_last; a_blacklist = !x_cx; a_groups = !x_grp },
    { TextTree.at_help = !help; at_long = !lng })
 
 let rec txt_cmd (mode : tmode) (spec : Sx.t) : AotTree.cmd * TextTree.ttree =
